@@ -42,3 +42,16 @@ def opCfg (args : List String) : String :=
       | .err => "err"
       | .ok c idx => dumpCfg c idx
   | _ => "bad-op"
+
+def opReq (args : List String) : String :=
+  match args with
+  | [url, now] =>
+    match now.toInt? with
+    | none => "bad-op"
+    | some n =>
+      let u := url.map fun ch => if ch = '+' then ' ' else ch
+      let parts := (u.splitOn "/").drop 2
+      match cfgFromRequest n (parts.map cutPart) with
+      | .status c => toString c
+      | .ok now' c idx => s!"ok now={now'} start={c.start} idx={idx}"
+  | _ => "bad-op"
